@@ -192,6 +192,52 @@ def run(ctx):
             observe(env.from_data, v, wrapper)
 
     drive.for_each_case(ctx, 'hasconverter', max(1, ctx.budget // 300), body2, gen=lambda c, r: Ty('int'))
+
+    # converters a user assembles by hand in a `_converter` hook: a struct with OPTIONAL fields (not reachable from a type
+    # expression), a union given member types that are unions themselves
+    def body3(i, rng, ty, T):
+        C = env.m_converters
+        names = rng.sample(('host', 'port', 'user', 'tag', 'opt'), rng.randint(2, 4))
+        tys = {n: rng.choice((int, str, float, t.Optional[int], t.List[int])) for n in names}
+        opt = set(rng.sample(names, rng.randint(1, len(names) - 1)))
+        sc = C.StructConverter(dict, tys, name='handmade', opt_fields=opt)
+        uc = C.UnionConverter((t.Optional[int], rng.choice((str, t.List[int], t.Union[float, bytes]))))
+        monitors.install()
+        good = {int: 3, str: 's', float: 1.5, t.Optional[int]: None, t.List[int]: [1]}
+        full = {n: good[tys[n]] for n in names}
+        cases = [full, {}, {n: v for n, v in full.items() if n in opt}, {n: v for n, v in full.items() if n not in opt}]
+        for n in names:
+            cases.append({k: v for k, v in full.items() if k != n})
+            cases.append({**full, n: object()})
+        cases += [{**full, 'zz_extra': 1}, [1], 'x', None]
+        drive.current['tskel'] = 'handmade-struct'
+        drive.current['tdesc'] = f"StructConverter(dict, {tys}, opt_fields={sorted(opt)})"
+        for v in cases:
+            drive.current['vdesc'] = short(v, 200)
+            out = observe(sc.convert, v)
+            ctx.count('handmade_converter_calls')
+            if out.kind == 'escape':
+                ctx.violation('no-internal-RuntimeError', 'handmade', i, {'converter': drive.current['tdesc'], 'value': short(v, 200), 'pane': out.brief()},
+                              mech=f"handmade-struct:{type(out.exc).__name__}")
+                return
+            if out.kind == 'value' and isinstance(v, dict):
+                lacking = [n for n in names if n not in opt and n not in v]
+                if lacking:
+                    ctx.violation('passes-agree', 'handmade', i, {'converter': drive.current['tdesc'], 'value': short(v, 200), 'accepted_without_required': lacking},
+                                  mech='handmade-struct:required-field-missing-accepted')
+                    return
+        drive.current['tskel'] = 'handmade-union'
+        drive.current['tdesc'] = f"UnionConverter({uc.types})"
+        for v in (3, None, 's', [1], 1.5, b'b', {'a': 1}, object(), ['x']):
+            drive.current['vdesc'] = short(v, 200)
+            out = observe(uc.convert, v)
+            ctx.count('handmade_converter_calls')
+            if out.kind == 'escape':
+                ctx.violation('no-internal-RuntimeError', 'handmade', i, {'converter': drive.current['tdesc'], 'value': short(v, 200), 'pane': out.brief()},
+                              mech=f"handmade-union:{type(out.exc).__name__}")
+                return
+
+    drive.for_each_case(ctx, 'handmade', max(10, ctx.budget // 20), body3, gen=lambda c, r: Ty('int'))
     monitors.observers.clear()
 
 
